@@ -33,7 +33,7 @@ static RunOpts opts_for(const Plan& p, const Cfg& c, u64 sseed) {
     o.w2 = (p.prop == "C16") && !sim::HAVE_ASAN;
     o.monitor = (p.prop == "C20");
     o.sched_seed = sseed;
-    o.sched_strategy = (int)(sseed % 4);
+    o.sched_strategy = (int)((sseed >> 4) % 5);
     return o;
 }
 
